@@ -435,6 +435,9 @@ func genCase(t *rapid.T, maxFrames int, big bool, inbandHeavy bool) *caseSpec {
 		}
 		c.Frames = append(c.Frames, f)
 	}
+	// a quarter of the cases: parameter sets reach the metadata only after the
+	// packetizers were built (SDP without sprop, sets arrive in band)
+	c.LateParamSets = pick(t, "late-ps", "no", "no", "no", "yes") == "yes"
 	return c
 }
 
